@@ -3,6 +3,7 @@ package broadcast
 import (
 	"context"
 	"errors"
+	"github.com/aperturerobotics/util/verifhook"
 	"sync"
 )
 
@@ -19,17 +20,22 @@ type Broadcast struct {
 // broadcast closes the wait channel, if any.
 // getWaitCh returns a channel that will be closed when broadcast is called.
 func (c *Broadcast) HoldLock(cb func(broadcast func(), getWaitCh func() <-chan struct{})) {
+	verifhook.Point(verifhook.BcastEnter, c)
+	defer verifhook.Point(verifhook.BcastExit, c)
 	c.mtx.Lock()
 	defer c.mtx.Unlock()
+	verifhook.Point(verifhook.BcastLocked, c)
 	cb(c.broadcastLocked, c.getWaitChLocked)
 }
 
 // TryHoldLock attempts to lock the mutex and call the callback.
 // It returns true if the lock was acquired and the callback was called, false otherwise.
 func (c *Broadcast) TryHoldLock(cb func(broadcast func(), getWaitCh func() <-chan struct{})) bool {
+	verifhook.Point(verifhook.BcastEnter, c)
 	if !c.mtx.TryLock() {
 		return false
 	}
+	defer verifhook.Point(verifhook.BcastExit, c)
 	defer c.mtx.Unlock()
 	cb(c.broadcastLocked, c.getWaitChLocked)
 	return true
@@ -42,11 +48,13 @@ func (c *Broadcast) HoldLockMaybeAsync(cb func(broadcast func(), getWaitCh func(
 		if lock {
 			c.mtx.Lock()
 		}
+		defer verifhook.Point(verifhook.BcastExit, c)
 		// use defer to catch panic cases
 		defer c.mtx.Unlock()
 		cb(c.broadcastLocked, c.getWaitChLocked)
 	}
 
+	verifhook.Point(verifhook.BcastEnter, c)
 	// fast path: lock immediately
 	if c.mtx.TryLock() {
 		holdBroadcastLock(false)
@@ -85,6 +93,7 @@ func (c *Broadcast) Wait(ctx context.Context, cb func(broadcast func(), getWaitC
 			return err
 		}
 
+		verifhook.Point(verifhook.BcastWaitBlock, c)
 		select {
 		case <-ctx.Done():
 			return context.Canceled
